@@ -20,8 +20,36 @@ from .folds import (Seq, Gen, GenToken, Cases, to_seq, has_abstract, seq_map, se
 _real = {n: getattr(_b, n) for n in dir(_b)}
 
 
-def _materialise(it):
+class OneShot:
+    """What map()/filter() return over an abstract sequence: an ITERATOR.  The first consumer that runs it to exhaustion
+    gets the elements, every later consumer gets nothing (CPython's behaviour for consumers that run one after the
+    other); after a short-circuiting consumer (any / all / in) read an unknown part of it, any further use is refused."""
+    _pyvc_proxy = True
+
+    def __init__(self, seq):
+        self.seq = seq
+        self.state = "fresh"
+
+    def take(self, partial=False):
+        if self.state == "partial":
+            raise Unsupported("iterator over an unbounded child list used again after any()/all()/in read part of it")
+        if self.state == "done":
+            return Seq([])
+        self.state = "partial" if partial else "done"
+        return self.seq
+
+    def __iter__(self):
+        return _real["iter"](self.take())
+
+    def __contains__(self, x):
+        return x in self.take(partial=True)
+
+
+def _materialise(it, partial=False):
     """iterable -> list (real) or Seq (when abstract)."""
+    if isi(it, OneShot):
+        m = it.take(partial)
+        return m if m.abstract else m.concrete_list()
     if isi(it, Seq):
         return it if it.abstract else it.concrete_list()
     if isi(it, GenToken):
@@ -304,7 +332,7 @@ def map_(f, *its):
     if len(its) == 1:
         m = _materialise(its[0])
         if isi(m, Seq):
-            return seq_map(f, m)
+            return OneShot(seq_map(f, m))
         return iter([f(x) for x in m])
     ms = [_materialise(i) for i in its]
     if any(isi(m, Seq) for m in ms):
@@ -317,7 +345,7 @@ def filter_(p, it):
         return _real["filter"](p, it)
     m = _materialise(it)
     if isi(m, Seq):
-        return seq_filter(p, m)
+        return OneShot(seq_filter(p, m))
     out = []
     for x in m:
         if (p(x) if p is not None else x):
@@ -353,7 +381,7 @@ def sorted_(it, key=None, reverse=False):
 
 
 def any_(it):
-    m = _materialise(it)
+    m = _materialise(it, partial=True)
     if isi(m, Seq):
         return seq_any(m)
     for x in m:
@@ -363,7 +391,7 @@ def any_(it):
 
 
 def all_(it):
-    m = _materialise(it)
+    m = _materialise(it, partial=True)
     if isi(m, Seq):
         return seq_all(m)
     for x in m:
@@ -495,6 +523,8 @@ def hash_(x):
 
 
 def next_(it, *default):
+    if isi(it, OneShot):
+        it = it.take(partial=True)
     if isi(it, Seq):
         if it.abstract:
             raise Unsupported("next() on an abstract sequence")
@@ -503,6 +533,8 @@ def next_(it, *default):
 
 
 def iter_(x, *a):
+    if isi(x, OneShot):
+        return x
     if isi(x, Seq) and x.abstract:
         raise Unsupported("iter() of an abstract sequence")
     return _real["iter"](x, *a)
@@ -534,6 +566,9 @@ def make_builtins(extra=None):
     # `map`/`list` keeps its own meaning
     d.update({"__pyvc_map__": map_, "__pyvc_filter__": filter_, "__pyvc_list__": list_, "__pyvc_set__": set_,
               "__pyvc_dict__": dict_, "__pyvc_flat__": lambda its: _chain().from_iterable(its)})
+    from . import loops
+    d.update({"__pyvc_for__": loops.pyvc_for, "__pyvc_iter__": loops.pyvc_iter, "__pyvc_Ret__": loops.Ret,
+              "__pyvc_BREAK__": loops.BREAK, "__pyvc_isret__": loops.isret})
     if extra:
         d.update(extra)
     return d
